@@ -14,31 +14,31 @@ Section Proofs.
   Variable parse_info  : blob -> option (ident * Z).
   Variable check_expiry : bool.
 
-  Notation load := (load blob chain pkey ident parse_certs parse_key pair_ok parse_info).
-  Notation analyze := (analyze blob ident parse_info).
-  Notation new_reloader := (new_reloader blob chain pkey ident parse_certs parse_key pair_ok parse_info).
-  Notation reload := (reload blob chain pkey ident parse_certs parse_key pair_ok parse_info check_expiry).
-  Notation run_state := (run_state blob chain pkey ident parse_certs parse_key pair_ok parse_info check_expiry).
-  Notation outcomes := (outcomes blob chain pkey ident parse_certs parse_key pair_ok parse_info check_expiry).
-  Notation step := (step blob chain pkey ident parse_certs parse_key pair_ok parse_info check_expiry).
-  Notation run := (run blob chain pkey ident parse_certs parse_key pair_ok parse_info check_expiry).
-  Notation state := (state blob chain pkey ident).
-  Notation sys := (sys blob chain pkey ident).
-  Notation loaded := (loaded blob chain pkey).
+  Notation cr_load := (cr_load blob chain pkey ident parse_certs parse_key pair_ok parse_info).
+  Notation cr_analyze := (cr_analyze blob ident parse_info).
+  Notation cr_new := (cr_new blob chain pkey ident parse_certs parse_key pair_ok parse_info).
+  Notation cr_reload := (cr_reload blob chain pkey ident parse_certs parse_key pair_ok parse_info check_expiry).
+  Notation cr_run_state := (cr_run_state blob chain pkey ident parse_certs parse_key pair_ok parse_info check_expiry).
+  Notation cr_outcomes := (cr_outcomes blob chain pkey ident parse_certs parse_key pair_ok parse_info check_expiry).
+  Notation cr_step := (cr_step blob chain pkey ident parse_certs parse_key pair_ok parse_info check_expiry).
+  Notation cr_run := (cr_run blob chain pkey ident parse_certs parse_key pair_ok parse_info check_expiry).
+  Notation cr_state := (cr_state blob chain pkey ident).
+  Notation cr_sys := (cr_sys blob chain pkey ident).
+  Notation cr_loaded := (cr_loaded blob chain pkey).
 
   (* a pair that passed every check of one load *)
-  Definition valid_pair (l : loaded) : Prop :=
+  Definition valid_pair (l : cr_loaded) : Prop :=
     parse_certs (l_cert l) = Some (l_chain l) /\
     parse_key (l_key l) = Some (l_pkey l) /\
     pair_ok (l_chain l) (l_pkey l) = true.
 
   (* ---------------------------------------------------------------- load *)
   Lemma load_ok_inv : forall rd w l oi,
-    load rd w = inl (l, oi) ->
+    cr_load rd w = inl (l, oi) ->
     rd_cert rd = Some (l_cert l) /\ rd_key rd = Some (l_key l) /\ valid_pair l /\
-    oi = analyze w (l_cert l).
+    oi = cr_analyze w (l_cert l).
   Proof.
-    intros rd w l oi H. unfold CertReload.load in H.
+    intros rd w l oi H. unfold CertReload.cr_load in H.
     destruct (rd_cert rd) as [cb|] eqn:Ec; [|discriminate].
     destruct (parse_certs cb) as [ch|] eqn:Ep; [|discriminate].
     destruct (rd_key rd) as [kb|] eqn:Ek; [|discriminate].
@@ -50,26 +50,26 @@ Section Proofs.
 
   (* the second-read field is never consulted *)
   Lemma load_ignores_second_read : forall c k c2 c2' w,
-    load (Build_reads c k c2) w = load (Build_reads c k c2') w.
+    cr_load (Build_cr_reads c k c2) w = cr_load (Build_cr_reads c k c2') w.
   Proof. reflexivity. Qed.
 
   (* ---------------------------------------------------------------- one reload *)
   Lemma reload_cases : forall st rd c,
-    (exists e, reload st rd c = (st, RErr e)) \/
+    (exists e, cr_reload st rd c = (st, CrErr e)) \/
     (exists l i,
-        load rd (wall_an c) = inl (l, Some i) /\
-        (check_expiry && expired_at_reload ident c i) = false /\
-        ((count st <> u64_max /\
-          reload st rd c = (Build_state l (Some i) (count st + 1)%N (Some (mono c)), ROk)) \/
-         (count st = u64_max /\
-          reload st rd c = (Build_state l (Some i) (count st) (last st), RPanic)))).
+        cr_load rd (cr_wall_an c) = inl (l, Some i) /\
+        (check_expiry && cr_expired_at_reload ident c i) = false /\
+        ((cr_count st <> cr_u64_max /\
+          cr_reload st rd c = (Build_cr_state l (Some i) (cr_count st + 1)%N (Some (cr_mono c)), CrOk)) \/
+         (cr_count st = cr_u64_max /\
+          cr_reload st rd c = (Build_cr_state l (Some i) (cr_count st) (cr_last st), CrPanic)))).
   Proof.
-    intros st rd c. unfold CertReload.reload.
-    destruct (load rd (wall_an c)) as [[l [i|]]|e] eqn:El.
-    - destruct (check_expiry && expired_at_reload ident c i) eqn:Ex.
+    intros st rd c. unfold CertReload.cr_reload.
+    destruct (cr_load rd (cr_wall_an c)) as [[l [i|]]|e] eqn:El.
+    - destruct (check_expiry && cr_expired_at_reload ident c i) eqn:Ex.
       + left; eexists; reflexivity.
       + right. exists l, i. split; [reflexivity|]. split; [exact Ex|].
-        destruct (N.eqb_spec (count st) u64_max) as [E|E].
+        destruct (N.eqb_spec (cr_count st) cr_u64_max) as [E|E].
         * right; split; [exact E | reflexivity].
         * left; split; [exact E | reflexivity].
     - left; eexists; reflexivity.
@@ -77,7 +77,7 @@ Section Proofs.
   Qed.
 
   Lemma fail_unchanged : forall st rd c st' e,
-    reload st rd c = (st', RErr e) -> st' = st.
+    cr_reload st rd c = (st', CrErr e) -> st' = st.
   Proof.
     intros st rd c st' e H.
     destruct (reload_cases st rd c) as [[e' E]|(l & i & _ & _ & [[_ E]|[_ E]])];
@@ -85,22 +85,22 @@ Section Proofs.
   Qed.
 
   Lemma not_expired_at_check : forall c (i : certinfo ident),
-    expired_at_reload ident c i = false -> wall_chk c <= ci_not_after i.
+    cr_expired_at_reload ident c i = false -> cr_wall_chk c <= ci_not_after i.
   Proof.
-    intros c i H. unfold expired_at_reload in H.
+    intros c i H. unfold cr_expired_at_reload in H.
     rewrite cert_reload_expiry_exact in H.
     apply orb_false_iff in H. destruct H as [_ H]. cbn in H.
     apply Z.ltb_ge in H. exact H.
   Qed.
 
   Lemma success_pair : forall st rd c st',
-    reload st rd c = (st', ROk) ->
+    cr_reload st rd c = (st', CrOk) ->
     exists i,
-      rd_cert rd = Some (l_cert (active st')) /\ rd_key rd = Some (l_key (active st')) /\
-      valid_pair (active st') /\
-      analyze (wall_an c) (l_cert (active st')) = Some i /\ info st' = Some i /\
-      (check_expiry = true -> wall_chk c <= ci_not_after i) /\
-      count st' = (count st + 1)%N /\ last st' = Some (mono c).
+      rd_cert rd = Some (l_cert (cr_active st')) /\ rd_key rd = Some (l_key (cr_active st')) /\
+      valid_pair (cr_active st') /\
+      cr_analyze (cr_wall_an c) (l_cert (cr_active st')) = Some i /\ cr_info st' = Some i /\
+      (check_expiry = true -> cr_wall_chk c <= ci_not_after i) /\
+      cr_count st' = (cr_count st + 1)%N /\ cr_last st' = Some (cr_mono c).
   Proof.
     intros st rd c st' H.
     destruct (reload_cases st rd c) as [[e' E]|(l & i & El & Ex & [[_ E]|[_ E]])];
@@ -114,15 +114,15 @@ Section Proofs.
   (* an expired certificate is refused (with the expiry check on), whatever else is on disk *)
   Lemma expired_fails : forall st rd c cb id na r st',
     check_expiry = true ->
-    rd_cert rd = Some cb -> parse_info cb = Some (id, na) -> na < wall_chk c ->
-    reload st rd c = (st', r) -> st' = st /\ exists e, r = RErr e.
+    rd_cert rd = Some cb -> parse_info cb = Some (id, na) -> na < cr_wall_chk c ->
+    cr_reload st rd c = (st', r) -> st' = st /\ exists e, r = CrErr e.
   Proof.
     intros st rd c cb id na r st' Hce Hc Hp Hlt H.
     destruct (reload_cases st rd c) as [[e' E]|(l & i & El & Ex & Hrest)].
     - rewrite E in H; inversion H; subst. split; [reflexivity | eexists; reflexivity].
     - exfalso. apply load_ok_inv in El. destruct El as (Hc' & _ & _ & Hi).
       rewrite Hc in Hc'. inversion Hc'; subst cb.
-      unfold CertReload.analyze in Hi. rewrite Hp in Hi. inversion Hi; subst i; clear Hi.
+      unfold CertReload.cr_analyze in Hi. rewrite Hp in Hi. inversion Hi; subst i; clear Hi.
       rewrite Hce in Ex. cbn [andb] in Ex.
       apply not_expired_at_check in Ex. cbn in Ex. lia.
   Qed.
@@ -134,7 +134,7 @@ Section Proofs.
      (exists kb, rd_key rd = Some kb /\ parse_key kb = None) \/
      (exists cb kb ch k, rd_cert rd = Some cb /\ rd_key rd = Some kb /\
         parse_certs cb = Some ch /\ parse_key kb = Some k /\ pair_ok ch k = false)) ->
-    exists e, reload st rd c = (st, RErr e).
+    exists e, cr_reload st rd c = (st, CrErr e).
   Proof.
     intros st rd c H.
     destruct (reload_cases st rd c) as [E|(l & i & El & _ & _)]; [exact E|].
@@ -143,7 +143,7 @@ Section Proofs.
     - congruence.
     - congruence.
     - rewrite Hc in H1; inversion H1; subst cb. destruct H2 as [H2|H2]; [congruence|].
-      unfold CertReload.analyze in Hi. rewrite H2 in Hi. discriminate.
+      unfold CertReload.cr_analyze in Hi. rewrite H2 in Hi. discriminate.
     - rewrite Hk in H1; inversion H1; subst kb. congruence.
     - rewrite Hc in H1; inversion H1; subst cb. rewrite Hk in H2; inversion H2; subst kb.
       rewrite Hpc in H3; inversion H3; subst ch. rewrite Hpk in H4; inversion H4; subst k. congruence.
@@ -151,20 +151,20 @@ Section Proofs.
 
   (* ---------------------------------------------------------------- histories *)
   Lemma run_state_app : forall evs1 evs2 st,
-    run_state st (evs1 ++ evs2) = run_state (run_state st evs1) evs2.
+    cr_run_state st (evs1 ++ evs2) = cr_run_state (cr_run_state st evs1) evs2.
   Proof.
     induction evs1 as [|[rd c] evs1 IH]; intros; cbn; [reflexivity | apply IH].
   Qed.
 
   (* the event that installed the current pair *)
-  Definition installed_by (st0 st : state) (rd0 : reads blob) (c0 : clock) (evs : list (reads blob * clock))
-             (rd : reads blob) (c : clock) : Prop :=
-    rd_cert rd = Some (l_cert (active st)) /\ rd_key rd = Some (l_key (active st)) /\
-    valid_pair (active st) /\
-    info st = analyze (wall_an c) (l_cert (active st)) /\
-    (((rd, c) = (rd0, c0) /\ active st = active st0 /\ info st = info st0) \/
-     (In (rd, c) evs /\ exists i, info st = Some i /\
-                                 (check_expiry = true -> wall_chk c <= ci_not_after i))).
+  Definition installed_by (st0 st : cr_state) (rd0 : cr_reads blob) (c0 : cr_clock) (evs : list (cr_reads blob * cr_clock))
+             (rd : cr_reads blob) (c : cr_clock) : Prop :=
+    rd_cert rd = Some (l_cert (cr_active st)) /\ rd_key rd = Some (l_key (cr_active st)) /\
+    valid_pair (cr_active st) /\
+    cr_info st = cr_analyze (cr_wall_an c) (l_cert (cr_active st)) /\
+    (((rd, c) = (rd0, c0) /\ cr_active st = cr_active st0 /\ cr_info st = cr_info st0) \/
+     (In (rd, c) evs /\ exists i, cr_info st = Some i /\
+                                 (check_expiry = true -> cr_wall_chk c <= ci_not_after i))).
 
   Lemma installed_by_weaken : forall st0 st rd0 c0 evs evs' rd c,
     installed_by st0 st rd0 c0 evs rd c -> (forall x, In x evs -> In x evs') ->
@@ -177,7 +177,7 @@ Section Proofs.
 
   Lemma invariant_step : forall st0 rd0 c0 pre st rd c,
     (exists rdx cx, installed_by st0 st rd0 c0 pre rdx cx) ->
-    exists rdx cx, installed_by st0 (fst (reload st rd c)) rd0 c0 (pre ++ [(rd, c)]) rdx cx.
+    exists rdx cx, installed_by st0 (fst (cr_reload st rd c)) rd0 c0 (pre ++ [(rd, c)]) rdx cx.
   Proof.
     intros st0 rd0 c0 pre st rd c (rdx & cx & Hinst).
     destruct (reload_cases st rd c) as [[e E]|(l & i & El & Ex & Hrest)].
@@ -186,7 +186,7 @@ Section Proofs.
     - exists rd, c.
       apply load_ok_inv in El. destruct El as (Hc & Hk & Hv & Hi).
       assert (Hin : In (rd, c) (pre ++ [(rd, c)])) by (apply in_or_app; right; left; reflexivity).
-      assert (Hexp : check_expiry = true -> wall_chk c <= ci_not_after i).
+      assert (Hexp : check_expiry = true -> cr_wall_chk c <= ci_not_after i).
       { intro Hce. rewrite Hce in Ex. cbn [andb] in Ex. apply not_expired_at_check; exact Ex. }
       destruct Hrest as [[_ E]|[_ E]]; rewrite E; cbn;
         (unfold installed_by; cbn; repeat split; auto; try apply Hv;
@@ -195,22 +195,22 @@ Section Proofs.
 
   Lemma invariant_from : forall evs st0 rd0 c0 pre st,
     (exists rdx cx, installed_by st0 st rd0 c0 pre rdx cx) ->
-    exists rdx cx, installed_by st0 (run_state st evs) rd0 c0 (pre ++ evs) rdx cx.
+    exists rdx cx, installed_by st0 (cr_run_state st evs) rd0 c0 (pre ++ evs) rdx cx.
   Proof.
     induction evs as [|[rd c] evs IH]; intros st0 rd0 c0 pre st H.
     - cbn. rewrite app_nil_r. exact H.
-    - cbn [CertReload.run_state].
+    - cbn [CertReload.cr_run_state].
       replace (pre ++ (rd, c) :: evs) with ((pre ++ [(rd, c)]) ++ evs)
         by (rewrite <- app_assoc; reflexivity).
       apply IH. apply invariant_step. exact H.
   Qed.
 
   Lemma new_installed : forall rd0 c0 st0,
-    new_reloader rd0 c0 = inl st0 ->
-    installed_by st0 st0 rd0 c0 [] rd0 c0 /\ count st0 = 0%N /\ last st0 = None.
+    cr_new rd0 c0 = inl st0 ->
+    installed_by st0 st0 rd0 c0 [] rd0 c0 /\ cr_count st0 = 0%N /\ cr_last st0 = None.
   Proof.
-    intros rd0 c0 st0 H. unfold CertReload.new_reloader in H.
-    destruct (load rd0 (wall_an c0)) as [[l oi]|e] eqn:El; [|discriminate].
+    intros rd0 c0 st0 H. unfold CertReload.cr_new in H.
+    destruct (cr_load rd0 (cr_wall_an c0)) as [[l oi]|e] eqn:El; [|discriminate].
     inversion H; subst; clear H. apply load_ok_inv in El.
     destruct El as (Hc & Hk & Hv & Hi). cbn.
     split; [|split; reflexivity].
@@ -222,8 +222,8 @@ Section Proofs.
      which passed PEM parsing and the key-match test together, and the information is the analysis of
      exactly those certificate bytes; if installed by a reload (check on) it was unexpired then. *)
   Theorem invariant : forall rd0 c0 st0 evs,
-    new_reloader rd0 c0 = inl st0 ->
-    exists rd c, installed_by st0 (run_state st0 evs) rd0 c0 evs rd c.
+    cr_new rd0 c0 = inl st0 ->
+    exists rd c, installed_by st0 (cr_run_state st0 evs) rd0 c0 evs rd c.
   Proof.
     intros rd0 c0 st0 evs H. apply new_installed in H. destruct H as [H _].
     change evs with ([] ++ evs) at 2.
@@ -232,8 +232,8 @@ Section Proofs.
 
   (* ---------------------------------------------------------------- counters *)
   Lemma count_step : forall st rd c,
-    (count (fst (reload st rd c)) <= count st + 1)%N /\
-    (snd (reload st rd c) = RPanic -> count st = u64_max).
+    (cr_count (fst (cr_reload st rd c)) <= cr_count st + 1)%N /\
+    (snd (cr_reload st rd c) = CrPanic -> cr_count st = cr_u64_max).
   Proof.
     intros st rd c.
     destruct (reload_cases st rd c) as [[e E]|(l & i & _ & _ & [[Hn E]|[Hn E]])]; rewrite E; cbn.
@@ -243,38 +243,38 @@ Section Proofs.
   Qed.
 
   Lemma count_bound : forall evs st,
-    (count (run_state st evs) <= count st + N.of_nat (length evs))%N.
+    (cr_count (cr_run_state st evs) <= cr_count st + N.of_nat (length evs))%N.
   Proof.
-    induction evs as [|[rd c] evs IH]; intros st; cbn [CertReload.run_state length].
+    induction evs as [|[rd c] evs IH]; intros st; cbn [CertReload.cr_run_state length].
     - lia.
-    - specialize (IH (fst (reload st rd c))). pose proof (count_step st rd c) as [H _]. lia.
+    - specialize (IH (fst (cr_reload st rd c))). pose proof (count_step st rd c) as [H _]. lia.
   Qed.
 
   (* the checked increment cannot overflow in any history of fewer than 2^64 - 1 reload requests *)
   Theorem no_panic : forall evs st,
-    (count st + N.of_nat (length evs) <= u64_max)%N -> ~ In RPanic (outcomes st evs).
+    (cr_count st + N.of_nat (length evs) <= cr_u64_max)%N -> ~ In CrPanic (cr_outcomes st evs).
   Proof.
     induction evs as [|[rd c] evs IH]; intros st Hb Hin; cbn in Hin; [exact Hin|].
     cbn [length] in Hb.
     pose proof (count_step st rd c) as [Hle Hp].
     destruct Hin as [Hin|Hin].
     - apply Hp in Hin. lia.
-    - apply (IH (fst (reload st rd c))); [lia | exact Hin].
+    - apply (IH (fst (cr_reload st rd c))); [lia | exact Hin].
   Qed.
 
   (* ---------------------------------------------------------------- a success stays in force *)
   Theorem failures_keep_state : forall evs st,
-    Forall (fun r => exists e, r = RErr e) (outcomes st evs) -> run_state st evs = st.
+    Forall (fun r => exists e, r = CrErr e) (cr_outcomes st evs) -> cr_run_state st evs = st.
   Proof.
     induction evs as [|[rd c] evs IH]; intros st H; cbn in *; [reflexivity|].
     inversion H as [|r rs [e He] Hrs]; subst.
-    assert (Hst : fst (reload st rd c) = st).
-    { destruct (reload st rd c) as [st' r] eqn:E. cbn in *. subst r. eapply fail_unchanged; exact E. }
+    assert (Hst : fst (cr_reload st rd c) = st).
+    { destruct (cr_reload st rd c) as [st' r] eqn:E. cbn in *. subst r. eapply fail_unchanged; exact E. }
     rewrite Hst in *. apply IH. exact Hrs.
   Qed.
 
   (* ---------------------------------------------------------------- snapshots *)
-  Lemma step_conns_prefix : forall s o, exists tl, conns (step s o) = conns s ++ tl.
+  Lemma step_conns_prefix : forall s o, exists tl, cr_conns (cr_step s o) = cr_conns s ++ tl.
   Proof.
     intros s [rd c| |]; cbn.
     - exists []; rewrite app_nil_r; reflexivity.
@@ -282,7 +282,7 @@ Section Proofs.
     - exists []; rewrite app_nil_r; reflexivity.
   Qed.
 
-  Lemma step_sess_prefix : forall s o, exists tl, sess (step s o) = sess s ++ tl.
+  Lemma step_sess_prefix : forall s o, exists tl, cr_sess (cr_step s o) = cr_sess s ++ tl.
   Proof.
     intros s [rd c| |]; cbn.
     - exists []; rewrite app_nil_r; reflexivity.
@@ -291,18 +291,18 @@ Section Proofs.
   Qed.
 
   Lemma run_prefix : forall ops s,
-    (exists tl, conns (run s ops) = conns s ++ tl) /\ (exists tl, sess (run s ops) = sess s ++ tl).
+    (exists tl, cr_conns (cr_run s ops) = cr_conns s ++ tl) /\ (exists tl, cr_sess (cr_run s ops) = cr_sess s ++ tl).
   Proof.
-    induction ops as [|o ops IH]; intros s; cbn [CertReload.run].
+    induction ops as [|o ops IH]; intros s; cbn [CertReload.cr_run].
     - split; exists []; rewrite app_nil_r; reflexivity.
-    - destruct (IH (step s o)) as [[t1 H1] [t2 H2]].
+    - destruct (IH (cr_step s o)) as [[t1 H1] [t2 H2]].
       destruct (step_conns_prefix s o) as [u1 U1]. destruct (step_sess_prefix s o) as [u2 U2].
       split.
       + exists (u1 ++ t1). rewrite H1, U1, app_assoc. reflexivity.
       + exists (u2 ++ t2). rewrite H2, U2, app_assoc. reflexivity.
   Qed.
 
-  Lemma run_app : forall ops1 ops2 s, run s (ops1 ++ ops2) = run (run s ops1) ops2.
+  Lemma run_app : forall ops1 ops2 s, cr_run s (ops1 ++ ops2) = cr_run (cr_run s ops1) ops2.
   Proof. induction ops1 as [|o ops1 IH]; intros; cbn; [reflexivity | apply IH]. Qed.
 
   Lemma nth_error_app_here : forall (A : Type) (l tl : list A) (x : A),
@@ -314,27 +314,27 @@ Section Proofs.
 
   (* a connection accepted after `before` uses the pair active at that moment, whatever happens later *)
   Theorem snapshot_conn : forall s before after,
-    nth_error (conns (run s (before ++ OAccept :: after))) (length (conns (run s before)))
-    = Some (active (rl (run s before))).
+    nth_error (cr_conns (cr_run s (before ++ CrAccept :: after))) (length (cr_conns (cr_run s before)))
+    = Some (cr_active (cr_rl (cr_run s before))).
   Proof.
-    intros s before after. rewrite run_app. cbn [CertReload.run].
-    destruct (run_prefix after (step (run s before) OAccept)) as [[tl H] _].
-    rewrite H. cbn [CertReload.step conns]. apply nth_error_app_here.
+    intros s before after. rewrite run_app. cbn [CertReload.cr_run].
+    destruct (run_prefix after (cr_step (cr_run s before) CrAccept)) as [[tl H] _].
+    rewrite H. cbn [CertReload.cr_step cr_conns]. apply nth_error_app_here.
   Qed.
 
   Theorem snapshot_sess : forall s before after,
-    nth_error (sess (run s (before ++ OEstablish :: after))) (length (sess (run s before)))
-    = Some (active (rl (run s before))).
+    nth_error (cr_sess (cr_run s (before ++ CrEstablish :: after))) (length (cr_sess (cr_run s before)))
+    = Some (cr_active (cr_rl (cr_run s before))).
   Proof.
-    intros s before after. rewrite run_app. cbn [CertReload.run].
-    destruct (run_prefix after (step (run s before) OEstablish)) as [_ [tl H]].
-    rewrite H. cbn [CertReload.step sess]. apply nth_error_app_here.
+    intros s before after. rewrite run_app. cbn [CertReload.cr_run].
+    destruct (run_prefix after (cr_step (cr_run s before) CrEstablish)) as [_ [tl H]].
+    rewrite H. cbn [CertReload.cr_step cr_sess]. apply nth_error_app_here.
   Qed.
 
   (* existing connections and sessions are never touched by later operations *)
   Theorem undisturbed : forall s ops j a,
-    (nth_error (conns s) j = Some a -> nth_error (conns (run s ops)) j = Some a) /\
-    (nth_error (sess s) j = Some a -> nth_error (sess (run s ops)) j = Some a).
+    (nth_error (cr_conns s) j = Some a -> nth_error (cr_conns (cr_run s ops)) j = Some a) /\
+    (nth_error (cr_sess s) j = Some a -> nth_error (cr_sess (cr_run s ops)) j = Some a).
   Proof.
     intros s ops j a. destruct (run_prefix ops s) as [[t1 H1] [t2 H2]].
     split; intro H; [rewrite H1 | rewrite H2];
@@ -342,16 +342,16 @@ Section Proofs.
   Qed.
 
   (* the reloader component of a system run is the history of its reload events *)
-  Fixpoint reload_events (ops : list (op blob)) : list (reads blob * clock) :=
+  Fixpoint reload_events (ops : list (cr_op blob)) : list (cr_reads blob * cr_clock) :=
     match ops with
     | [] => []
-    | OReload rd c :: ops' => (rd, c) :: reload_events ops'
+    | CrReload rd c :: ops' => (rd, c) :: reload_events ops'
     | _ :: ops' => reload_events ops'
     end.
 
-  Lemma rl_run : forall ops s, rl (run s ops) = run_state (rl s) (reload_events ops).
+  Lemma rl_run : forall ops s, cr_rl (cr_run s ops) = cr_run_state (cr_rl s) (reload_events ops).
   Proof.
-    induction ops as [|[rd c| |] ops IH]; intros s; cbn [CertReload.run reload_events CertReload.run_state];
+    induction ops as [|[rd c| |] ops IH]; intros s; cbn [CertReload.cr_run reload_events CertReload.cr_run_state];
       try reflexivity; rewrite IH; reflexivity.
   Qed.
 End Proofs.
